@@ -525,6 +525,14 @@ def fake_http_proxy(c, a, rec):
         c.sendall(b'\x00\x01\x02 garbage\r\n\r\n')
     elif host == 'slow.test':
         time.sleep(30)
+    elif host.startswith('status-'):
+        # other legal spellings of a success status line (RFC 7230: the reason phrase may be empty)
+        line = {'status-noreason': b'HTTP/1.1 200 ', 'status-http10': b'HTTP/1.0 200 OK', 'status-longreason': b'HTTP/1.1 200 Connection established, go ahead',
+                'status-201': b'HTTP/1.1 201 Created', 'status-299': b'HTTP/1.1 299 Fine'}.get(host.split('.')[0], b'HTTP/1.1 200 OK')
+        c.sendall(line + b'\r\n\r\n')
+        if rest:
+            c.sendall(rest)
+        _echo_loop(c)
     elif host.startswith('glued-'):
         # the origin speaks first and its n bytes travel in the same segment as the proxy's reply
         n = int(host.split('-')[1].split('.')[0])
@@ -573,6 +581,10 @@ def fake_socks_proxy(c, a, rec):
             n = int(host.split('-')[1].split('.')[0])
             c.sendall(b'\x05\x00\x00\x01\0\0\0\0\0\0' + b'B' * n)
             _echo_loop(c)
+        elif host.startswith('v4reply-'):
+            # a SOCKS4-format reply on a SOCKS5 session
+            c.sendall(b'\x00' + bytes([int(host.split('-')[1].split('.')[0])]) + b'\0\0\0\0\0\0')
+            time.sleep(1)
         else:
             c.sendall(b'\x05\x00\x00\x01\0\0\0\0\0\0')
             _echo_loop(c)
@@ -600,6 +612,11 @@ def fake_socks_proxy(c, a, rec):
         rec['target'] = f'{host}:{port}'
         if host == 'no.test':
             c.sendall(b'\x00\x5b\0\0\0\0\0\0')
+        elif host.startswith('cd-'):
+            # any reply code: only 90 means granted
+            c.sendall(b'\x00' + bytes([int(host.split('-')[1].split('.')[0])]) + b'\0\0\0\0\0\0')
+            if int(host.split('-')[1].split('.')[0]) == 90:
+                _echo_loop(c)
         elif host == 'garbage.test':
             c.sendall(b'\x09\x09\x09')
         elif host == 'close.test':
